@@ -7,14 +7,14 @@ use crate::{
 };
 use reqwest::Url;
 use roxmltree::Node;
-use std::{collections::HashMap, rc::Rc};
+use std::{collections::BTreeMap, rc::Rc};
 
 pub type XmlName = String;
 pub type SoapAction = Url;
 
 pub struct SoapBinding {
     pub name: XmlName,
-    pub operations: HashMap<XmlName, SoapOperation>,
+    pub operations: BTreeMap<XmlName, SoapOperation>,
     pub target_namespaces: Vec<Rc<Namespace>>,
 }
 
@@ -65,7 +65,7 @@ impl<'n> TryFromNode<'n> for SoapBinding {
                 let opp = read_soap_operation(o, doc, &port_type_node, &operation_name)?;
                 Ok((operation_name, opp))
             })
-            .collect::<WriterResult<HashMap<XmlName, SoapOperation>>>()?;
+            .collect::<WriterResult<BTreeMap<XmlName, SoapOperation>>>()?;
 
         let target_namespaces = doc.target_namespaces.clone();
         Ok(SoapBinding {
